@@ -420,9 +420,11 @@ def expected(s, package):
         if c == "aiff":
             exp["cues"] = [(q[0] & 0xffff, 0, 0x61746164, 0, 0, q[5], q[6]) for q in cues]
         else:
-            exp["cues"] = list(cues)
-            if any(q[6] for q in cues):
-                classes.add("cue-names")
+            # the name comes back as a C string of at most 255 bytes (SF_CUE_POINT.name [256]); labels are attached by cue
+            # point id, which RIFF requires to be unique: with duplicate ids the names are outside the statement
+            exp["cues"] = [tuple(q[:6]) + (q[6].split(b"\0")[0][:255],) for q in cues]
+            if len({q[0] for q in cues}) != len(cues):
+                exp["cue_names_unchecked"] = True
         total += 12 + (sum(8 + len(q[6]) for q in cues) if c == "aiff" else 24 * len(cues))
     # instrument
     acc = [val for (k, late, ok, val, raw, n) in s.calls if k == "inst" and ok]
@@ -443,8 +445,6 @@ def expected(s, package):
         exp["chmap"] = acc[-1]
     if total >= 49000:
         classes.add("header-cache")
-    if c == "aiff" and "late-replace" in classes:
-        classes.add("aiff-late-replace")
     return exp, classes
 
 
@@ -515,7 +515,7 @@ def judge(s, package):
             F.append(("cues-missing", "%d cue points were set (ret=1) but the re-opened file has none" % len(want)))
         elif [q[:6] for q in cues] != [q[:6] for q in want] or cnt != len(want) or m.get("cuecount") != (1, len(want)):
             F.append(("cues-differ", "cue points differ: set %s…, got %s… (count %d)" % (want[:3], cues[:3], cnt)))
-        elif [q[6] for q in cues] != [q[6] for q in want]:
+        elif [q[6] for q in cues] != [q[6] for q in want] and not exp.get("cue_names_unchecked"):
             F.append(("cue-names-empty" if all(q[6] == b"" for q in cues) else "cue-names-differ", "cue names differ: set %s, got %s" % ([q[6] for q in want][:4], [q[6] for q in cues][:4])))
     if "inst" in exp:
         r, b = m.get("inst", (0, b""))
